@@ -28,7 +28,7 @@ ASSUMPTIONS = ["isomorphism search budget: exhausted budget is counted as inconc
 
 
 def budget(tier):
-    return {"examples": 450 if tier == "quick" else 12000, "shards": 16, "wall": 150 if tier == "quick" else 3000}
+    return {"examples": 320 if tier == "quick" else 12000, "shards": 16, "wall": 150 if tier == "quick" else 3000}
 
 
 @st.composite
